@@ -183,6 +183,8 @@ func firstDiffBytes(a, b []byte) int {
 
 var injectTokens = []string{"1.5", "'c'", "`raw`", "0x10", "017", "1_000", "0b11", "9223372036854775808", "18446744073709551616", "\"str\"", "ünï", "-", "=", ";", ",", "(", ")", "{", "}", "[", "]", ".", "<", ">",
 	"enum", "oneway", "message", "any", "import", "options", "struct", "service", "subservice", "int32", "X", "0", "7", "@", "#", "\\", "'ab'", "\"unterminated", "/* unterminated", "1e", "0x",
+	// a lone opening quote, a lone backquote, a lone apostrophe
+	"\"", "`", "'",
 	// string values that begin or end with an escaped quote
 	"\"\\\"\\\"\"", "\"a\\\"\"", "\"\\\"b\"",
 	// defects only the scanner sees while the token stream stays grammatical
@@ -207,7 +209,12 @@ func TestC15_TokenMutants(t *testing.T) {
 				continue
 			}
 			pos := rapid.IntRange(0, len(texts)-1).Draw(rt, "pos")
-			switch rapid.IntRange(0, 4).Draw(rt, "op") {
+			switch rapid.IntRange(0, 5).Draw(rt, "op") {
+			case 5:
+				// the text ends here, right after a hostile token (an opening quote, a comment start, half a number)
+				tk := injectTokens[rapid.IntRange(0, len(injectTokens)-1).Draw(rt, "inj")]
+				desc = append(desc, fmt.Sprintf("cut after token %d and append %q", pos, tk))
+				texts = append(texts[:pos+1:pos+1], tk)
 			case 0:
 				desc = append(desc, fmt.Sprintf("delete %q", texts[pos]))
 				texts = append(texts[:pos], texts[pos+1:]...)
